@@ -37,6 +37,11 @@ def check_determine(ctx, case):
     if not 0 <= size <= 11:  # outside the statement's domain (only reachable through a hand-written replay file)
         return
     off = size - T.MAJOR_SIZES[T.letter_dist(a[0], b[0])]
+    # asking about the reversed pair first (whatever it answers) must not change the answer for (a, b)
+    try:
+        intervals.determine(b, a, form != "long")
+    except Exception:  # noqa - the reversed pair may lie outside the statement's domain
+        pass
     if form == "long":
         expected = "%s %s" % (quality, number)
         r = ctx.ok("determine/long", intervals.determine, a, b)
@@ -71,6 +76,12 @@ def check_shorthand(ctx, case):
         letter, pclass = T.letter_up(name[0], -(degree - 1)), (T.pc(name) - size) % 12
     sig = "from_shorthand/" + ("up" if up else "down")
     r = ctx.ok(sig, intervals.from_shorthand, name, sh, up)
+    # the direction given by keyword, and (upwards) left to its default, denote the same call
+    rk = ctx.ok(sig, lambda: intervals.from_shorthand(name, sh, up=up))
+    ctx.check(failed(r) or failed(rk) or rk == r, sig + "/keyword-form", lambda: "from_shorthand(%r, %r, up=%r) -> %r, positional %r" % (name, sh, up, rk, r))
+    if up:
+        rd = ctx.ok(sig, intervals.from_shorthand, name, sh)
+        ctx.check(failed(r) or failed(rd) or rd == r, sig + "/default-direction", lambda: "from_shorthand(%r, %r) -> %r, up=True %r" % (name, sh, rd, r))
     if not failed(r):
         what = lambda: "from_shorthand(%r, %r, %r) -> %r, expected letter %s, pitch class %d" % (name, sh, up, r, letter, pclass)  # noqa
         if ctx.check(T.valid(r), sig + "/valid", what):
@@ -78,6 +89,8 @@ def check_shorthand(ctx, case):
             ctx.check(T.pc(r) == pclass, sig + "/semitones", what)
             if up:
                 back = ctx.ok("from_shorthand/up-down", intervals.from_shorthand, r, sh, False)
+                backk = ctx.ok("from_shorthand/up-down", lambda: intervals.from_shorthand(r, sh, up=False))
+                ctx.check(failed(back) or failed(backk) or back == backk, "from_shorthand/down/keyword-form", lambda: "%r vs %r" % (backk, back))
                 if not failed(back):
                     ctx.check(back == name, "from_shorthand/up-down/round-trip",
                               lambda: "%r up %r -> %r, down %r -> %r" % (name, sh, r, sh, back))
